@@ -30,7 +30,7 @@ mod verif_c07_newpacket {
         kani::assume(next_pn < VARINT_MAX);
         // caller obligation of PacketNumber::encode (unit c07_pn): unacknowledged distance below 2^31,
         // otherwise pn() panics ("packet number too large to encode")
-        kani::assume(acked <= next_pn && next_pn - acked < (1u64 << 31));
+        kani::assume(acked <= next_pn && next_pn - acked < (1u64 << 31) - 1); // - 1: the harnesses also ask for the following number
         (journal(next_pn, acked), next_pn)
     }
 
@@ -180,7 +180,7 @@ mod verif_c07_newpacket {
             let mut g = new_packet(&j);
             g.record_frame(7u8);
         } // abandoned part-way
-        assert!(next_pn_of(&j) == 0, "C07.newpacket.abandon_after_record.number_not_consumed");
+        assert!(next_pn_of(&j) == 0, "C10.newpacket.abandon_after_record.number_not_consumed");
         let mut g = new_packet(&j);
         let pn = g.pn().0;
         g.record_frame(9u8);
